@@ -49,6 +49,37 @@ CHECKS = {
     technique="TLA+ spec EmuFull (mark channels: stack/single, ACTIVE/RUNNING tracking) explored by TLC; transition cover replayed on ovniemu and validated by EmuTrace.tla; runtime side through drivers/rtdrive",
     text="Bounded model with a stack and a single mark type, two threads, pause/cool/migrate; push on single, set on stack, zero values, undefined types and mismatched pops must be rejected; timelines of types 101/102 on thread and CPU rows validated after every event.",
     note="Runtime-side refusals and label merging are covered by the runtime mark programs (see evidence notes)."),
+
+ "C09": dict(
+    level="fault_enumeration", ref="DESIGN.md §4 C09",
+    technique="TLA+ spec RtFs (literal system-call sequence of the runtime + Crash between any two calls) checked by TLC; every system call index of every scenario program is killed with strace on the real library and the surviving directories + ovniemu verdict are validated by RtFsTrace.tla",
+    text="TLC checks C09a/C09b on the bounded family (direct/tmp mode, 1-2 flushes, copy chunk sizes, both readdir orders, accepted-prefix positions) and refutes the negative configurations (relocation in readdir order). On the code: the strace call list of each scenario must be exactly the model's script, and for every call index N the process is re-run with SIGKILL at the entry of call N; the abstract disk state must equal the model state at that crash point and the monitors are evaluated with the observed emulator verdict.",
+    note="Single-threaded scenarios (threads write disjoint directories); SIGKILL delivered by strace at syscall entry; the emulator is the observation of 'accepted'. The scenario 'boundary-tmp' places the end event exactly on the stdio copy-chunk boundary."),
+ "C10": dict(
+    level="fault_enumeration", ref="DESIGN.md §4 C10",
+    technique="TLA+ spec RtFs with a Fail alternative for every call (one fault per run) checked by TLC; every libovni system call of every scenario is failed with strace error injection on the real library and the outcome is judged by the C10 monitors of RtFsTrace.tla",
+    text="TLC checks C10a/b/c (normal return => a complete copy exists; the only complete copy is never deleted; nothing accepted lacks flushed bytes) for a single failing call anywhere, and refutes the variant that ignores copy errors. On the code each call index is failed with ENOSPC/EIO/EACCES (the call is not executed) and the exit kind (abort with diagnostic / normal return), the disk state of tmp and final directories and the emulator verdicts are validated.",
+    note="Error injection skips the call (no partial effect); truthful short writes are not injected. Faults are single."),
+ "C11": dict(
+    level="model_checking", ref="DESIGN.md §4 C11",
+    technique="TLA+ spec RtProc (CAS-guarded life-cycle, thread-local state) checked by TLC over all interleavings; TLC -simulate schedules replayed step by step on libovni through the hook points (drivers/mtdrive) and validated by RtProcTrace.tla; free-running runs under ThreadSanitizer",
+    text="All interleavings of 3 threads over 7 programs at linearization-point granularity with InitOnce, FiniOnce, RecordStableWhileRead, NoOpBeforeReady, Isolation, StMonotone; a load+store 'CAS' is refuted. ~1000 (quick) generated schedules are forced on the real library with gates at ovni_verif_point 1-4 and before each API call; every step outcome, refusal class and the per-thread streams on disk are validated. TSan free runs must be race-free.",
+    note="Schedules are forced at API/hook granularity only; absence of data races in C is observed (TSan), not proved; a CAS weakened to load+store is caught by the model, only probabilistically on the code."),
+ "C13": dict(
+    level="model_checking", ref="DESIGN.md §4 C13",
+    technique="TLA+ spec PrvTrace (clauses of the property as operators; expected row names from SystemOps) evaluated by TLC on the real .prv/.pcf/.row files of accepted runs over TLC-generated histories of all bounded models and the metadata family",
+    text="Every clause (non-decreasing times, rows in range, header duration = last event time, types declared in the .pcf, labelled state values, .row names/count/order) is evaluated by TLC on the files written by the real emulator for thousands of accepted runs covering all models, marks, tasks, ranks and two looms.",
+    note="Speaks of accepted traces only; 64-bit values are folded before TLC; breakdown files are covered by C20."),
+ "C14": dict(
+    level="model_checking", ref="DESIGN.md §4 C14",
+    technique="TLA+ spec Version (Compatible/Parse/ShouldEnable + code-shaped layer) checked exhaustively by TLC; exported cases replayed on version_parse/version_is_compatible/ovni_version_check_str/ovni_thread_require and on ovniemu (require versions, model enabling)",
+    text="TLC enumerates all (want, have) triples over 0..3, all strings up to length 6/7 over a 6-character alphabet and all (events, requires, -a) configurations of 8 models with 18 invariants and 5 refuted negative configurations; >100k exported cases are replayed on the real runtime functions and the emulator.",
+    note="Strings whose only irregularity is undefined by the property (empty components, 4th component, strtol spellings) are Unspecified."),
+ "C15": dict(
+    level="model_checking", ref="DESIGN.md §4 C15",
+    technique="TLA+ spec SystemOps/System (property layer = function of the union of metadata; implementation layer = sequential first-come merge) checked by TLC over all distributions/orders/contradictions; exported cases materialised and run through ovniemu (verdict, signal, thread.row/cpu.row)",
+    text="For every distribution of app_id/rank/loom_cpus over the threads, CPU list order, processing order and every single contradiction of the bounded family TLC checks that the merge agrees with the union semantics and that rows are distribution independent; a deterministic sample and all contradictions are run on the real emulator and rows/verdict/absence of signals compared.",
+    note="2 looms, 3 processes, 5 threads; equal sort keys are Unspecified."),
 }
 
 NA_REASON = "check not built yet in this round (planned, see DESIGN.md §4/§8); not claimed until its machinery exists"
@@ -94,7 +125,7 @@ def main():
         f.write("\n")
 
 
-HOOK_COMMITS = []
+HOOK_COMMITS = ["4347f13", "1b81d02", "79e435a"]
 
 if __name__ == "__main__":
     main()
